@@ -35,7 +35,7 @@ type mixEntry struct {
 
 // propMix: the property-specific mixture of profiles (DESIGN §6).
 var propMix = map[string][]mixEntry{
-	"C01": {{"mixed", "c01", 4}, {"staking", "c01", 3}, {"authz", "c01", 2}, {"timeout", "c01", 1}},
+	"C01": {{"did", "c01", 3}, {"mixed", "c01", 4}, {"staking", "c01", 3}, {"authz", "c01", 2}, {"timeout", "c01", 1}},
 	"C03": {{"staking", "c03", 6}, {"mixed", "c03", 3}},
 	"C02": {{"mixed", "c01", 1}, {"mixed", "", 3}, {"long", "", 3}, {"timeout", "", 1}, {"staking", "", 1}, {"authz", "", 1}},
 	"C04": {{"mixed", "", 5}, {"long", "", 2}, {"timeout", "", 1}},
@@ -51,12 +51,24 @@ var propMix = map[string][]mixEntry{
 	"C14": {{"mixed", "", 6}, {"timeout", "", 2}, {"long", "", 1}},
 	"C15": {{"mixed", "", 4}, {"timeout", "", 3}, {"staking", "", 1}},
 	"C16": {{"authz", "", 3}, {"mixed", "", 3}, {"timeout", "", 2}},
+	"C17": {{"did", "", 7}, {"mixed", "", 1}},
+	"C18": {{"mixed", "c18", 4}, {"faults", "c18", 3}, {"staking", "c18", 2}, {"did", "c18", 1}, {"timeout", "c18", 1}},
 	"C19": {{"faults", "", 6}, {"mixed", "", 1}},
 	"C20": {{"staking", "", 7}, {"mixed", "", 1}},
 }
 
 // mandatory probes per property: a check that never reaches them explored nothing.
-var propProbes = map[string][]string{}
+var propProbes = map[string][]string{
+	"C05": {"order_ended_before_first_completion"},
+	"C11": {"shard_expired"},
+	"C12": {"order_with_stalled_shards"},
+	"C15": {"providers_selected"},
+	"C16": {"update_accepted"},
+	"C17": {"did_binding_created"},
+	"C18": {"regenesis_done"},
+	"C19": {"fault_record_changed"},
+	"C20": {"super_node_promoted"},
+}
 
 type propMeta struct {
 	Title string
@@ -434,7 +446,7 @@ func cmdSurvey(profile string) {
 				i := next
 				next++
 				mu.Unlock()
-				sp := RunSpec{Index: i, Seed: runSeed(base, i), Profile: profile, Prop: "ALL", Fuel: 5_000_000}
+				sp := RunSpec{Index: i, Seed: runSeed(base, i), Profile: profile, Prop: "ALL", Fuel: 5_000_000, Mode: os.Getenv("VERIF_MODE")}
 				b, _ := json.Marshal(sp)
 				stdin.Write(append(b, '\n'))
 				line, err := rd.ReadBytes('\n')
